@@ -46,6 +46,7 @@ const (
 	OpBConst
 	OpBVar
 	OpUF // uninterpreted function application; name in Name
+	OpSlice // Args[0]=base, A=lo, B=n, C=shift
 )
 
 var opNames = map[Op]string{
@@ -61,6 +62,7 @@ type Term struct {
 	W    int // bit width; 0 = Bool
 	Args []*Term
 	A, B uint64 // const value (A) / extract hi,lo / ext amount
+	C    uint64 // slice shift
 	Name string
 	ID   int
 	// unsigned interval [Lo,Hi] for bit-vectors with W<=64
@@ -92,14 +94,14 @@ func mask(w int) uint64 {
 type termKey struct {
 	op         Op
 	w          int
-	a, b       uint64
+	a, b, c    uint64
 	name       string
 	n          int
 	x0, x1, x2 int
 }
 
 func (tb *TermBank) mk(t *Term) *Term {
-	k := termKey{op: t.Op, w: t.W, a: t.A, b: t.B, name: t.Name, n: len(t.Args), x0: -1, x1: -1, x2: -1}
+	k := termKey{op: t.Op, w: t.W, a: t.A, b: t.B, c: t.C, name: t.Name, n: len(t.Args), x0: -1, x1: -1, x2: -1}
 	switch len(t.Args) {
 	case 0:
 	case 1:
@@ -192,6 +194,20 @@ func (tb *TermBank) analyse(t *Term) {
 			if lo == 0 && a.Hi <= m {
 				t.Lo, t.Hi = a.Lo, a.Hi
 			}
+		}
+	case OpSlice:
+		a := t.Args[0]
+		lo, n, sh := uint(t.A), int(t.B), uint(t.C)
+		field := mask(n) << sh
+		t.K1 = ((a.K1 >> lo) << sh) & field
+		t.K0 = (((a.K0 | ^mask(a.W)) >> lo) << sh) | ^field
+		hi := a.Hi >> lo
+		if hi > mask(n) {
+			hi = mask(n)
+		}
+		t.Hi = hi << sh
+		if lo == 0 && a.Hi <= mask(n) {
+			t.Lo = a.Lo << sh
 		}
 	case OpZExt:
 		a := t.Args[0]
@@ -422,6 +438,54 @@ func (tb *TermBank) Bin(op Op, a, b *Term) *Term {
 	}
 	if w <= 64 {
 		switch op {
+		case OpShl:
+			if b.Op == OpConst {
+				if b.A >= uint64(w) {
+					return tb.Const(w, 0)
+				}
+				return tb.Slice(a, 0, w-int(b.A), int(b.A), w)
+			}
+		case OpLShr:
+			if b.Op == OpConst {
+				if b.A >= uint64(w) {
+					return tb.Const(w, 0)
+				}
+				return tb.Slice(a, int(b.A), w-int(b.A), 0, w)
+			}
+		case OpAnd:
+			for k := 0; k < 2; k++ {
+				x, m := a, b
+				if k == 1 {
+					x, m = b, a
+				}
+				if m.Op != OpConst || x.Op == OpConst {
+					continue
+				}
+				if j, n, ok := contiguousMask(m.A); ok {
+					return tb.Slice(x, j, n, j, w)
+				}
+				if x.Op == OpOr {
+					// (p | q) & m  =  (p & m) | (q & m)
+					return tb.Bin(OpOr, tb.Bin(OpAnd, x.Args[0], m), tb.Bin(OpAnd, x.Args[1], m))
+				}
+			}
+		case OpOr:
+			if a.Op != OpConst && b.Op != OpConst {
+				if m := tb.mergeSlices(a, b); m != nil {
+					return m
+				}
+				// (p | q) | r with q,r mergeable (varint reassembly accumulates left to right)
+				if a.Op == OpOr {
+					if m := tb.mergeSlices(a.Args[1], b); m != nil {
+						return tb.Bin(OpOr, a.Args[0], m)
+					}
+					if m := tb.mergeSlices(a.Args[0], b); m != nil {
+						return tb.Bin(OpOr, m, a.Args[1])
+					}
+				}
+			}
+		}
+		switch op {
 		case OpLShr:
 			// ((x << c) | low) >> c  ==  x   when x loses no bits and low < 2^c
 			if b.Op == OpConst && a.Op == OpOr {
@@ -492,20 +556,8 @@ func (tb *TermBank) Extract(a *Term, hi, lo int) *Term {
 	if lo == 0 && w == a.W {
 		return a
 	}
-	if a.Op == OpConst && a.W <= 64 {
-		return tb.Const(w, a.A>>uint(lo))
-	}
-	if a.Op == OpZExt && hi < a.Args[0].W {
-		return tb.Extract(a.Args[0], hi, lo)
-	}
-	if a.Op == OpZExt && lo >= a.Args[0].W {
-		return tb.Const(w, 0)
-	}
-	if a.Op == OpZExt && lo == 0 && w > a.Args[0].W {
-		return tb.ZExt(a.Args[0], w)
-	}
-	if a.Op == OpExtract {
-		return tb.Extract(a.Args[0], int(a.B)+hi, int(a.B)+lo)
+	if a.W <= 64 {
+		return tb.Slice(a, lo, w, 0, w)
 	}
 	if a.Op == OpConcat {
 		lw := a.Args[1].W
@@ -516,11 +568,7 @@ func (tb *TermBank) Extract(a *Term, hi, lo int) *Term {
 			return tb.Extract(a.Args[0], hi-lw, lo-lw)
 		}
 	}
-	t := tb.mk(&Term{Op: OpExtract, W: w, Args: []*Term{a}, A: uint64(hi), B: uint64(lo)})
-	if w <= 64 && t.Lo == t.Hi {
-		return tb.Const(w, t.Lo)
-	}
-	return t
+	return tb.mk(&Term{Op: OpExtract, W: w, Args: []*Term{a}, A: uint64(hi), B: uint64(lo)})
 }
 
 // ZExt zero-extends a to width w.
@@ -531,24 +579,11 @@ func (tb *TermBank) ZExt(a *Term, w int) *Term {
 	if w < a.W {
 		return tb.Extract(a, w-1, 0)
 	}
+	if w <= 64 {
+		return tb.Slice(a, 0, a.W, 0, w)
+	}
 	if a.Op == OpConst {
 		return tb.Const(w, a.A)
-	}
-	if a.Op == OpZExt {
-		return tb.ZExt(a.Args[0], w)
-	}
-	if a.Op == OpExtract && a.B == 0 {
-		src := a.Args[0]
-		if src.W <= 64 && src.Hi <= mask(a.W) {
-			// the extract dropped only zero bits
-			if src.W == w {
-				return src
-			}
-			if src.W < w {
-				return tb.ZExt(src, w)
-			}
-			return tb.Extract(src, w-1, 0)
-		}
 	}
 	return tb.mk(&Term{Op: OpZExt, W: w, Args: []*Term{a}, A: uint64(w - a.W)})
 }
@@ -781,6 +816,8 @@ func (t *Term) body() string {
 	switch t.Op {
 	case OpExtract:
 		fmt.Fprintf(&sb, "((_ extract %d %d) %s)", t.A, t.B, t.Args[0].ref())
+	case OpSlice:
+		sb.WriteString(sliceSMT(t, t.Args[0].ref()))
 	case OpZExt:
 		fmt.Fprintf(&sb, "((_ zero_extend %d) %s)", t.A, t.Args[0].ref())
 	case OpSExt:
@@ -810,6 +847,8 @@ func (t *Term) String() string {
 		return t.ref()
 	case OpExtract:
 		return fmt.Sprintf("((_ extract %d %d) %s)", t.A, t.B, t.Args[0])
+	case OpSlice:
+		return sliceSMT(t, t.Args[0].String())
 	case OpZExt:
 		return fmt.Sprintf("((_ zero_extend %d) %s)", t.A, t.Args[0])
 	case OpSExt:
@@ -827,4 +866,17 @@ func (t *Term) String() string {
 	}
 	sb.WriteString(")")
 	return sb.String()
+}
+
+// sliceSMT renders ((base >> lo) & mask(n)) << shift in W bits.
+func sliceSMT(t *Term, base string) string {
+	lo, n, sh := int(t.A), int(t.B), int(t.C)
+	e := fmt.Sprintf("((_ extract %d %d) %s)", lo+n-1, lo, base)
+	if t.W > n {
+		e = fmt.Sprintf("((_ zero_extend %d) %s)", t.W-n, e)
+	}
+	if sh > 0 {
+		e = fmt.Sprintf("(bvshl %s %s)", e, bvLit(t.W, uint64(sh)))
+	}
+	return e
 }
